@@ -47,6 +47,10 @@ def case(job):
         tc = ""
     if empty_t:
         tt = ""
+    # one project in seven keeps its config in a TOML file with CRLF line endings in which the commit message is a multi-line string ("""...""", two paragraphs)
+    crlf_ml = seed % 7 == 4 and not cli_c and seed % 3 != 1 and "\\" not in tc and '"""' not in tc and "\n" not in tc and "\t" not in tc
+    if crlf_ml:
+        tc = tc + "\n\nsecond paragraph {old_version}"
     # in a quarter of the git projects a version tag is AHEAD of the configured version: the old version of the placeholders is the tag's
     tag_ahead = tool == "git" and seed % 4 == 3
     old, new, oldpep, newpep = ("v1.2.7-beta", "v1.2.8-beta", "1.2.7b0", "1.2.8b0") if tag_ahead else (OLD, NEW, "1.2.3b0", "1.2.4b0")
@@ -77,7 +81,13 @@ def case(job):
         if use_cfg:
             proj.write("setup.cfg", project.setup_cfg(OLD, VP, [(n, ["{version}"]) for n in names], commit=True, tag=True, push=True, extra=extra, quote=False))
         else:
-            proj.write("bumpver.toml", project.bumpver_toml(OLD, VP, [(n, ["{version}"]) for n in names], commit=True, tag=True, push=True, extra=extra))
+            text = project.bumpver_toml(OLD, VP, [(n, ["{version}"]) for n in names], commit=True, tag=True, push=True, extra=extra)
+            if crlf_ml:
+                one_line = "commit_message = " + project.toml_str(tc)
+                if text.count(one_line) != 1:
+                    raise Machinery("C12: cannot place the multi-line commit message")
+                text = text.replace(one_line, 'commit_message = """\n' + tc + '"""').replace("\n", "\r\n")
+            proj.write("bumpver.toml", text)
         for n in names:
             proj.write(n, "version %s\n" % OLD)
         args = ["update", "--no-fetch"] + (["--set-version", setver] if setver else ["--patch"])
